@@ -264,11 +264,13 @@ Proof.
   destruct (q_instant q).
   - destruct (q_end q) eqn:Ee; try discriminate;
       destruct (step_ms (q_step q)) as [ms|]; try discriminate;
+      destruct (limit_of 100 (q_limit q) <? 0); try discriminate;
       destruct (ms <=? 0) eqn:Em; try discriminate; apply Z.leb_gt in Em;
       destruct (q_shape q) as [sh0|]; try discriminate; destruct (q_boot_fail q); try discriminate;
       eapply plan_guard; eauto; lia.
   - destruct (negb (is_num (q_start q)) || negb (is_num (q_end q))); [discriminate|].
     destruct (step_ms (q_step q)) as [ms|]; try discriminate.
+    destruct (limit_of 0 (q_limit q) <? 0); try discriminate.
     destruct (ms <=? 0) eqn:Em; try discriminate. apply Z.leb_gt in Em.
     destruct (num_of (q_end q) <? num_of (q_start q)) eqn:Er; try discriminate. apply Z.ltb_ge in Er.
     destruct (q_shape q) as [sh0|]; try discriminate. destruct (q_boot_fail q); try discriminate. eapply plan_guard; eauto.
